@@ -36,7 +36,7 @@ type c16Prog struct {
 }
 
 func runC16(r *vc.Run, replay string) {
-	r.Rule = "programs = sequences of queries, DML (literal and bound arguments, duplicate keys, syntax errors, unknown tables), prepared statements (exec/query reuse, close), explicit local transactions (default / isolation level / read-only options; commit or rollback), pinned connections, multi-statement texts and DDL (create/alter/drop); each program runs through the AT proxy, the XA proxy and the bare driver on identical databases, with interpolated parameters and (outside global transactions) with the driver's default server-side parameters, optionally with the server closing idle pooled connections in between; outside a global transaction: identical statement journal (text, arguments, order), identical step results, no coordinator traffic; inside a global transaction (AT, committed): identical business statement results and identical committed data, business statements reach the database in the same order; distinct_nontrivial = distinct (mode, proxy, step kinds, dsn flavour) signatures"
+	r.Rule = "programs = sequences of queries, DML (INSERT with table-order or shuffled column lists, UPDATE, DELETE, single- and multi-row INSERT ... ON DUPLICATE KEY UPDATE; literal and bound arguments, duplicate keys, syntax errors, unknown tables), prepared statements (exec/query reuse, close), explicit local transactions (default / isolation level / read-only options; commit or rollback), pinned connections, multi-statement texts and DDL (create/alter/drop); each program runs through the AT proxy, the XA proxy and the bare driver on identical databases, with interpolated parameters and (outside global transactions) with the driver's default server-side parameters, optionally with the server closing idle pooled connections in between; outside a global transaction: identical statement journal (text, arguments, order), identical step results, no coordinator traffic; inside a global transaction (AT, committed): identical business statement results and identical committed data, business statements reach the database in the same order; distinct_nontrivial = distinct (mode, proxy, step kinds, dsn flavour) signatures"
 	r.Assumptions = []string{"error values are compared by MySQL error number and text", "undo_log statements (the asynchronous commit worker deletes the logs of earlier global transactions at its own pace) and metadata lookups are transactional duties and are left out of the journal comparison", "statements the proxy issues when a connection is first opened (SELECT VERSION() and the like) are outside the compared window only if they precede the first program on that pool"}
 	n := 600
 	if r.Tier == "thorough" {
@@ -271,7 +271,12 @@ func c16Gen(r *vc.Rand, name string, idx int, insideToo bool) *c16Prog {
 	if idx%3 == 2 && insideToo {
 		p.Mode = "inside"
 	}
-	t := atGenTable(r, name+"_a", []string{"autoinc", "int", "varchar"}[r.Intn(3)], []string{"int", "bigint", "varchar", "double", "datetime"}, 3, 4, true)
+	vkinds := []string{"int", "bigint", "varchar", "double", "datetime"}
+	if p.Mode == "outside" {
+		// values the AT image builder refuses (unsigned 64-bit above the signed range) only where no image is built
+		vkinds = append(vkinds, "ubigint")
+	}
+	t := atGenTable(r, name+"_a", []string{"autoinc", "int", "varchar"}[r.Intn(3)], vkinds, 3, 4, true)
 	p.Tables = []*atTable{t}
 	p.DDL = []string{describeTable(t)}
 	kinds := map[string]bool{}
@@ -285,15 +290,20 @@ func c16Gen(r *vc.Rand, name string, idx int, insideToo bool) *c16Prog {
 	dml := func() gtxStep {
 		o := atStmtOpts{params: params(), rowsClass: []string{"1", "many", "0"}[r.Intn(3)]}
 		var st atStmt
-		switch r.Intn(4) {
+		switch r.Intn(6) {
 		case 0:
 			st = atGenUpdate(r, t, o)
 		case 1:
 			st = atGenDelete(r, t, o)
 		case 2:
+			o.shuffleCols = r.Bool()
 			st = atGenInsert(r, t, o, 1+r.Intn(2), &seq)
-		default:
+		case 3:
 			st = atGenInsert(r, t, o, 1, &seq)
+		case 4:
+			st = atGenUpsert(r, t, o, r.Bool(), &seq)
+		default:
+			st = atGenUpsertMulti(r, t, o, &seq)
 		}
 		return gtxStep{Op: "exec", DB: "X", SQL: st.SQL, Args: st.Args}
 	}
